@@ -6,6 +6,12 @@ from ..common import case_hash
 
 def verdicts(case, res):
     out = P.lifecycle_verdicts(case, res)
+    if isinstance(res.outcome, tuple) and res.outcome[0] == "deadlock" and not res.left_context:
+        main = [x for x in res.outcome[1] if x[0] == "consumer"]
+        if main and res.calls_done == len(case["calls"]) and main[0][2] and main[0][2][0] == "__exit__":
+            name = "FactoryFunctorPool" if case["pool"] == "factory" else "FunctorPool"
+            return [("%s/pool-exit-never-completes/%s" % (name, (main[0][1] or "?").split(":")[0]), P.describe_deadlock(res))]
+        return []
     return out
 
 
@@ -22,7 +28,15 @@ def run_case(case, ctx):
     if labs & {"worker-replaced", "quota"} or "until_all_ready-with-slow-begin" in ctx.labels:
         ctx.nontrivial = True
     if "deadlocked" in labs and not res.left_context:
-        return  # a call that never finishes is C02/C03's verdict; C04 judges lifecycles of runs that leave the pool
+        # a call that never finishes is C02/C03's verdict; C04 judges lifecycles of runs that leave the pool - except when every
+        # call has finished and the consumer is stuck in the pool's own exit protocol (stop orders + join), which is C04's mechanism
+        main = [x for x in res.outcome[1] if x[0] == "consumer"]
+        if main and res.calls_done == len(case["calls"]) and main[0][2] and main[0][2][0] == "__exit__":
+            name = "FactoryFunctorPool" if case["pool"] == "factory" else "FunctorPool"
+            ctx.fail("%s/pool-exit-never-completes/%s" % (name, (main[0][1] or "?").split(":")[0]),
+                     "all calls finished but leaving the pool context blocks: %s" % P.describe_deadlock(res),
+                     detail={"explicit_schedule": PC.explicit(case, res)["sched"]})
+        return
     for sig, msg in verdicts(case, res):
         ctx.fail(sig, msg, detail={"explicit_schedule": PC.explicit(case, res)["sched"]})
 
